@@ -22,6 +22,7 @@ REGISTRY = {
     "C10": ("checks_sess", "check_c10"),
     "C13": ("checks_wait", "check_c13"),
     "C15": ("checks_sess", "check_c15"),
+    "C17": ("checks_sched", "check_c17"),
     "C19": ("checks_sess", "check_c19"),
     "C07": ("checks_fec", "check_c07"),
     "C16": ("checks_fec", "check_c16"),
